@@ -144,6 +144,10 @@ func main() {
 	if len(os.Args) < 2 {
 		fatal("usage: worker <command> ...")
 	}
+	if pluginCommands[os.Args[1]] {
+		pluginMode(os.Args[1])
+		return
+	}
 	switch os.Args[1] {
 	case "cache-run":
 		cacheRun(os.Args[2])
